@@ -68,7 +68,7 @@ def declare(reg, eng):
                                         "modifies": ["self.cleaned", "fs(self.pidfile)", "fs(self.failedpath)", "*.acquired"],
                                         "value": "1"}},
                  modifies=["self.cleaned", "fs(self.pidfile)", "fs(self.failedpath)", "*.acquired"], effect="handle_error")
-    reg.contract("TaskRunner.run", params=["self"], types={"self": "TaskRunner"},
+    reg.contract("TaskRunner.run", unreachable_ok=['if sys.platform != "win32":   [never false]'], params=["self"], types={"self": "TaskRunner"},
                  requires=DISTINCT + ["self.cleaned == False", "length(self.locks) == 0", "self.started == False"],
                  ensures=[("C10", "isfile(self.donepath)"),      # normal return: only the "already completed" branch
                           (("C10", "C05"), "no_effect('body')")],
